@@ -18,7 +18,7 @@ ASSUMPTIONS = ['shift invariance is judged on matrices whose entries are all sto
                'no stored logit is exactly 0.0', 'tolerance 1e-9 (float64)']
 N = {'quick': 3000, 'thorough': 100000}
 CLASSES = ['dense', 'dense_peaky', 'sparse_floor', 'onehot', 'transformer', 'bag', 'bag_lm', 'bag_extreme', 'threshold', 'alto_wc']
-REQUIRED = ['line_conf_checked', 'shift_checked', 'onehot_checked', 'letter_conf_checked', 'page_conf_checked', 'bag_checked', 'monotone_checked', 'wc_checked',
+REQUIRED = ['repo_tests_under_contracts', 'line_conf_checked', 'shift_checked', 'onehot_checked', 'letter_conf_checked', 'page_conf_checked', 'bag_checked', 'monotone_checked', 'wc_checked',
             'contract:get_line_confidence in [0,1], one per label', 'contract:posteriors <= 0 and sum to 1', 'contract:compute_line_confidence in [0,1]']
 TOL = 1e-9
 
@@ -233,3 +233,30 @@ def check_alto(case, mon, ctx):
         mon.violation('line-confidence-in-unit-interval', {'where': 'ALTO export', 'value': line.transcription_confidence})
     if mode == 'onehot' and any(abs(w - 1) > 1e-6 for w in wcs):
         mon.violation('one-hot-gives-1', {'function': 'ALTO word confidence', 'wc': wcs})
+
+
+def extra(mon, ctx):
+    """the repository's own test suite under the contracts (a contract that fires there is too strict, or a defect the tests do not assert)"""
+    if ctx.shard != 0:
+        return
+    import json
+    import os
+    import subprocess
+    import sys
+    out = os.path.join(ctx.tmpdir, 'plugin.json')
+    env = dict(os.environ, VF_PLUGIN_OUT=out)
+    p = subprocess.run([sys.executable, '-m', 'pytest', '-q', '-p', 'no:cacheprovider', '-p', 'vf.pytest_plugin', '--timeout=900'], cwd=ctx.repo, env=env, capture_output=True, text=True, timeout=900)
+    if not os.path.exists(out):
+        mon.inconclusive_because('repository tests under contracts produced no result: ' + (p.stdout + p.stderr)[-300:])
+        return
+    res = json.load(open(out))
+    import re
+    m = re.search(r'(\d+) passed', p.stdout)
+    mon.count('repo_tests_under_contracts', int(m.group(1)) if m else 0)
+    mon.count('extra_evaluations', int(m.group(1)) if m else 0)
+    for k, v in res['counters'].items():
+        if k.startswith('contract:'):
+            mon.count('repo_tests:' + k, v)
+    for v in res['violations']:
+        mon.cur_desc = v.get('witness')
+        mon.violation(v['clause'], dict(v['detail'] if isinstance(v['detail'], dict) else {'detail': v['detail']}, during='repository test suite'), witness=v.get('witness'))
